@@ -167,6 +167,24 @@ func init() {
 					}
 				}
 			}
+			// bodies that are VALID UTF-8 as a whole (Cyrillic, accented Latin, CJK text before the first marker): the window
+			// is measured on the transcoded text whatever the body happens to be encoded in — raw offset below 16384 with
+			// the transcoded offset on either side of it
+			for _, unit := range []string{"\u0444", "\u00e9", "\u4e2d", "a\u00e9", "\u0444\u0444x"} {
+				per := 0
+				for _, c := range []byte(unit) {
+					if c >= 128 {
+						per += 2
+					} else {
+						per++
+					}
+				}
+				for _, target := range []int{16384 - 3*per, 16384 - per, 16384, 16384 + per, 20000, 9000} {
+					k := target / per
+					body := "<html><meta name=d content=\"" + strings.Repeat(unit, k) + "\">" + Pick(g, c20Markers) + ">x</html>"
+					emit(hex.EncodeToString([]byte(body)) + "\t" + b01(g.Chance(1, 4)) + "\t0")
+				}
+			}
 			for i := 0; i < n; i++ {
 				l := hex.EncodeToString(c20Body(g, tier)) + "\t" + b01(g.Chance(1, 3)) + "\t" + b01(g.Chance(1, 3))
 				if g.Chance(1, 4) {
